@@ -29,10 +29,11 @@ Proof.
   - destruct Hin as [Hin|[]]. subst e. cbn in Hv. inversion Hv. reflexivity.
 Qed.
 
-Lemma defer_loop_verdict : forall g p ids st e o,
-  In e (ro_trace (defer_loop g p st ids)) -> ev_verdict e = Some o -> ro_out (defer_loop g p st ids) = o.
+Lemma defer_loop_verdict : forall fuel g p ids st e o,
+  In e (ro_trace (defer_loop fuel g p st ids)) -> ev_verdict e = Some o -> ro_out (defer_loop fuel g p st ids) = o.
 Proof.
-  intros g p ids. induction ids as [|i r IH]; intros st e o Hin Hv; cbn [defer_loop] in *; [contradiction|].
+  intros fuel g p. induction fuel as [|fuel IH]; intros ids st e o Hin Hv;
+    (destruct ids as [|i r]; cbn [defer_loop] in *; [contradiction|]); [contradiction|].
   destruct (g_defer g st p i) as [st' out]. destruct (so_res out) eqn:Hres; cbn [ro_trace ro_out] in *.
   - destruct Hin as [Hin|Hin]; [subst e; cbn in Hv; discriminate Hv | eapply IH; eassumption].
   - destruct Hin as [Hin|[]]. subst e. cbn in Hv. inversion Hv. reflexivity.
@@ -121,10 +122,11 @@ Proof.
   inversion H. reflexivity.
 Qed.
 
-Lemma defer_loop_failed : forall g p ids st x,
-  ro_out (defer_loop g p st ids) = Failed x -> x = EDefer (g_name g) (pk_path p).
+Lemma defer_loop_failed : forall fuel g p ids st x,
+  ro_out (defer_loop fuel g p st ids) = Failed x -> x = EDefer (g_name g) (pk_path p).
 Proof.
-  intros g p ids. induction ids as [|i r IH]; intros st x H; cbn [defer_loop] in *; [discriminate H|].
+  intros fuel g p. induction fuel as [|fuel IH]; intros ids st x H;
+    (destruct ids as [|i r]; cbn [defer_loop] in *; [discriminate H|]); [discriminate H|].
   destruct (g_defer g st p i) as [st' out]. destruct (so_res out); cbn [ro_out] in *;
     try (eapply IH; eassumption); try discriminate H; inversion H; reflexivity.
 Qed.
@@ -346,6 +348,16 @@ Qed.
 
 (* ... and an empty gengo.sum makes the next run regenerate every package that has a hash (for any sum parser that
    reads nothing out of nothing) *)
+Theorem empty_sum_regenerates_all : forall a w s p,
+  e_sum_load E [] = [] -> fs_lookup (sum_path w) s = Some [] ->
+  pkg_changed a w (load_prev E a w s) p = true.
+Proof.
+  intros a w s p Hload Hs. unfold pkg_changed. destruct (a_force a); [reflexivity|].
+  unfold load_prev. destruct (a_all a && existsb (is_direct w) (w_pkgs w)); [|reflexivity].
+  rewrite Hs, Hload. cbn [sum_get].
+  destruct (sum_get (current_sum w) (pk_path p)); reflexivity.
+Qed.
+
 Theorem empty_sum_regenerates : forall a w s p,
   e_sum_load E [] = [] -> fs_lookup (sum_path w) s = Some [] ->
   sum_get (current_sum w) (pk_path p) <> [] ->
